@@ -564,9 +564,10 @@ func (db *DB) recoverJournal() error {
 				}
 				rec.resetAddedTables()
 
+				// The journal has been committed as obsolete, failing to
+				// remove it must not fail the recovery.
 				if err := db.s.stor.Remove(ofd); err != nil {
-					fr.Close()
-					return err
+					db.logf("journal@remove removing @%d %q", ofd.Num, err)
 				}
 				ofd = storage.FileDesc{}
 			}
@@ -651,8 +652,10 @@ func (db *DB) recoverJournal() error {
 
 	// Remove the last obsolete journal file.
 	if !ofd.Zero() {
+		// Everything is committed, the new journal is open: failing to
+		// remove the replayed one must not fail Open (and leak the writer).
 		if err := db.s.stor.Remove(ofd); err != nil {
-			return err
+			db.logf("journal@remove removing @%d %q", ofd.Num, err)
 		}
 	}
 
